@@ -430,26 +430,31 @@ end OpmVerif.Serial
 
 namespace OpmVerif.Serial
 
-/-! ### time_point travels as whole seconds -/
+/-! ### time_point travels as its full int64 millisecond count -/
 
-theorem unpackTime_packTime (ms : Nat) (rest : Bytes) (h : ms / 1000 < 256 ^ 8) :
-    unpackTime (packTime ms ++ rest) = .ok (ms / 1000 * 1000, rest) := by
-  unfold unpackTime packTime timeToTimeT
-  rw [rdNat_le 8 _ rest h]
-  rfl
-
-/-- The time read back is the time packed iff it is a whole number of seconds. -/
-theorem time_roundtrip_iff (ms : Nat) (rest : Bytes) (h : ms / 1000 < 256 ^ 8) :
-    unpackTime (packTime ms ++ rest) = .ok (ms, rest) ↔ ms % 1000 = 0 := by
-  rw [unpackTime_packTime ms rest h]
-  constructor
-  · intro hh
-    have : ms / 1000 * 1000 = ms := by
-      injection hh with h1; injection h1
+/-- Every `time_point` (any `int64_t` tick count, before or after the epoch) is read back
+exactly, whatever follows in the buffer. -/
+theorem unpackTime_packTime (ms : Int) (rest : Bytes) (hlo : -two63 ≤ ms) (hhi : ms < two63) :
+    unpackTime (packTime ms ++ rest) = .ok (ms, rest) := by
+  unfold two63 at hlo hhi
+  unfold unpackTime packTime two64 two63
+  have hnn : 0 ≤ ms % 18446744073709551616 := by omega
+  have hlt : ms % 18446744073709551616 < 18446744073709551616 := by omega
+  have hcast : (((ms % 18446744073709551616).toNat : Nat) : Int) = ms % 18446744073709551616 :=
+    Int.toNat_of_nonneg hnn
+  have hbound : (ms % 18446744073709551616).toNat < 256 ^ 8 := by
+    have h2 : (256 : Nat) ^ 8 = 18446744073709551616 := by decide
     omega
-  · intro hh
-    have : ms / 1000 * 1000 = ms := by omega
-    rw [this]
+  rw [rdNat_le 8 _ rest hbound]
+  simp only [hcast]
+  by_cases hneg : ms < 0
+  · have h0 : ms % 18446744073709551616 = ms + 18446744073709551616 := by omega
+    rw [h0]
+    have h1 : ¬ (ms + 18446744073709551616 < 9223372036854775808) := by omega
+    rw [if_neg h1]
+    congr 2; omega
+  · have h0 : ms % 18446744073709551616 = ms := by omega
+    rw [h0, if_pos hhi]
 
 end OpmVerif.Serial
 
